@@ -120,6 +120,7 @@ struct Solver {
     stdin: ChildStdin,
     stdout: BufReader<ChildStdout>,
     errors: u64,
+    seq: u64,
 }
 
 impl Solver {
@@ -134,7 +135,7 @@ impl Solver {
             .expect("spawn z3");
         let stdin = child.stdin.take().unwrap();
         let stdout = BufReader::new(child.stdout.take().unwrap());
-        Solver { _child: child, stdin, stdout, errors: 0 }
+        Solver { _child: child, stdin, stdout, errors: 0, seq: 0 }
     }
     fn send(&mut self, s: &str) {
         self.stdin.write_all(s.as_bytes()).unwrap();
@@ -146,6 +147,34 @@ impl Solver {
         self.stdout.read_line(&mut l).unwrap();
         l.trim().to_string()
     }
+    /// send a command and read every output line up to a fresh echo marker (resynchronises the
+    /// stream whatever the solver printed)
+    fn ask(&mut self, cmd: &str) -> Vec<String> {
+        self.seq += 1;
+        let marker = format!("symx-mark-{}", self.seq);
+        self.send(&format!("{}\n(echo \"{}\")", cmd, marker));
+        let mut out = vec![];
+        loop {
+            let l = self.read_line();
+            if l.trim_matches('"') == marker {
+                break;
+            }
+            if l.is_empty() {
+                // EOF: the solver died
+                if self.dead() {
+                    out.push("(error \"solver process ended\")".to_string());
+                    break;
+                }
+                continue;
+            }
+            out.push(l);
+        }
+        out
+    }
+    fn dead(&mut self) -> bool {
+        matches!(self._child.try_wait(), Ok(Some(_)))
+    }
+    #[allow(dead_code)]
     fn read_sexpr(&mut self) -> String {
         let mut acc = String::new();
         let mut depth = 0i32;
@@ -783,8 +812,14 @@ impl Ctx {
         let t0 = Instant::now();
         let r = {
             let s = self.solver.as_mut().unwrap();
-            s.send(&q);
-            s.read_line()
+            let lines = s.ask(&q);
+            if lines.iter().any(|l| l.starts_with("(error")) {
+                s.errors += 1;
+                eprintln!("symrt: solver error: {:?}", lines);
+                "error".to_string()
+            } else {
+                lines.iter().rev().find(|l| matches!(l.as_str(), "sat" | "unsat" | "unknown" | "timeout")).cloned().unwrap_or_else(|| "unknown".to_string())
+            }
         };
         self.solver_ms += t0.elapsed().as_millis();
         if let Ok(dir) = std::env::var("SYMX_DUMP") {
@@ -820,8 +855,7 @@ impl Ctx {
         }
         let names: Vec<String> = self.var_ids.iter().map(|i| format!("t{}", i)).collect();
         let s = self.solver.as_mut().unwrap();
-        s.send(&format!("(get-value ({}))", names.join(" ")));
-        let acc = s.read_sexpr();
+        let acc = s.ask(&format!("(get-value ({}))", names.join(" "))).join(" ");
         // parse "(tN value)" pairs
         let toks: Vec<&str> = acc
             .split(|c: char| c == '(' || c == ')' || c.is_whitespace())
